@@ -326,8 +326,10 @@ type Gen struct {
 	Prefix bool
 	ASCII  bool // only ASCII in strings (needed where the Coq model evaluates Quote)
 	// C13: part numbering of a message whose own type is message/rfc822 is not exercised
-	NoTopMsg   bool
-	TopMsg     bool // the message itself is of type message/rfc822
+	NoTopMsg bool
+	TopMsg   bool // the message itself is of type message/rfc822
+	// WideNames: header fields whose names use the whole set a field name may be made of: bytes 33..126 except ':'
+	WideNames  bool
 	NoMsgInMsg bool
 	// with NoMsgInMsg: still generate chains message/rfc822 > message/rfc822 > ... that end in a single part
 	MsgChainLeaf bool
@@ -628,6 +630,11 @@ func (g *Gen) Tree(depth int, top bool, eolMix bool) *Node {
 		}
 		n.Embedded.Env = g.EnvFor(false)
 	}
+	if g.WideNames && !n.Bare && g.Rng.Chance(0.35) {
+		for k := g.Rng.Range(1, 2); k > 0; k-- {
+			n.Extra = append(n.Extra, g.wideName()+": "+g.phrase(2))
+		}
+	}
 	if g.EmptyFields && !n.Bare {
 		if n.Desc == "" && g.Rng.Chance(0.1) {
 			n.Extra = append(n.Extra, "Content-Description:")
@@ -714,4 +721,55 @@ func EncodedWordHeader(rng *common.Rng) string {
 	default:
 		return field + ": a@b, " + w
 	}
+}
+
+// wideName: a field name over the bytes 33..126 without ':' (in particular '~' = 126, '!' = 33, '}', '"', '(' ...), that
+// can not be mistaken for a field the server reads.
+func (g *Gen) wideName() string {
+	var sb strings.Builder
+	sb.WriteString("X")
+	extremes := []byte{'~', '!', '}', '|', '{', '`', '"', '(', ')', '<', '>', '@', ',', ';', '\\', '/', '[', ']', '?', '=', '.', '#', '$', '%', '&', '\'', '*', '+', '^', '_', '-'}
+	for k := g.Rng.Range(1, 5); k > 0; k-- {
+		if g.Rng.Chance(0.6) {
+			sb.WriteByte(extremes[g.Rng.Pick(len(extremes))])
+		} else {
+			b := byte(g.Rng.Range(33, 126))
+			if b == ':' {
+				b = '~'
+			}
+			sb.WriteByte(b)
+		}
+	}
+	return sb.String()
+}
+
+// CorpusTrees: minimised inputs of defects that were found and fixed; the harnesses run them first.
+//
+//	0: multipart without closing delimiter whose last part has a line that begins like a delimiter (C12-fix-3, 3197c73)
+//	1: message whose own type is message/rfc822, embedding a single part (C13-fix-4 f1bd2d2, C13-fix-5 c239f65)
+//	2: message/rfc822 part embedding a single-part message (C13-fix-3 b5b7c00)
+//	3: header field with an empty value in front of another field (C13-fix-2 b738809)
+func CorpusTrees() []*Node {
+	env := func(subject string) *Env {
+		return &Env{Date: "Mon, 01 Jan 2024 10:00:00 +0000", From: []Addr{{"", "a", "example.com"}}, Subject: subject}
+	}
+	leaf := func(body string) *Node { return &Node{Type: "text", Sub: "plain", Body: []byte(body)} }
+	mp := func(b string, noClose bool, cs ...*Node) *Node {
+		return &Node{HasCT: true, Type: "multipart", Sub: "mixed", Boundary: b, Params: []Param{{"boundary", b}}, NoClose: noClose, Children: cs}
+	}
+	msg := func(e *Node) *Node { return &Node{HasCT: true, Type: "message", Sub: "rfc822", Embedded: e} }
+	t0 := mp("b", true, leaf("one"), leaf("line 1 of part two\r\n--bX is not a delimiter\r\nline 3 of part two\r\n"))
+	t0.Env = env("unterminated multipart")
+	inner := leaf("inner body\r\n")
+	inner.Env = &Env{From: []Addr{{"", "c", "example.org"}}, Subject: "inner"}
+	t1 := msg(inner)
+	t1.Env = env("outer")
+	inner2 := leaf("inner body")
+	inner2.Env = &Env{From: []Addr{{"", "c", "example.org"}}, Subject: "inner"}
+	t2 := mp("XX", false, leaf("hello"), msg(inner2))
+	t2.Env = env("forward")
+	t3 := leaf("x")
+	t3.Env = env("empty field")
+	t3.Extra = []string{"X-Empty:"}
+	return []*Node{t0, t1, t2, t3}
 }
